@@ -765,6 +765,7 @@ type vxC03SessCase struct {
 	CfgSerial int    `json:"cfg_serial,omitempty"`  // ClusterConfig.SerialConsistency (8 serial, 9 local serial)
 	CfgCQL    string `json:"cfg_cql,omitempty"`     // ClusterConfig.CQLVersion (STARTUP's CQL_VERSION)
 	ConsVia   int    `json:"cons_via,omitempty"`    // 0 on the statement, 1 ClusterConfig.Consistency, 2 Session.SetConsistency
+	Twice     bool   `json:"twice,omitempty"`       // the same Query / Batch object is executed a second time: the same request must go out again
 }
 
 func vxDrawBinds(t *rapid.T, proto int, min int) []vxC03Bind {
@@ -812,7 +813,7 @@ func vxBindArgs(binds []vxC03Bind, named bool) ([]interface{}, []cqlspec.ReqValu
 func TestVxC03Session(t *testing.T) {
 	vx.Check(t, vx.Prop{
 		ID: "C03", Part: "TestVxC03Session",
-		Rule: "a real session (protocol 1..5, snappy or none, keyspace or none) executes one request through the public API: an unprepared query, a prepared query with 1..4 bound values (int / text / nil / UnsetValue(v4+), optionally NamedValue(v3+)) or a batch (type, 0..3 entries with 0..4 values); options drawn: consistency (on the statement, ClusterConfig.Consistency or Session.SetConsistency), page size (set / default / 0), paging state, serial consistency (statement or ClusterConfig.SerialConsistency), timestamp (default now / explicit / disabled, ClusterConfig.DefaultTimestamp on or off), ClusterConfig.CQLVersion (STARTUP), tracing, custom payload (v4+), NoSkipMetadata; the frame the node received is decoded by lib/cqlspec and compared with what was asked; non-trivial = >= 2 options or a null/unset/named value; distinct by the case",
+		Rule: "a real session (protocol 1..5, snappy or none, keyspace or none) executes one request through the public API: an unprepared query, a prepared query with 1..4 bound values (int / text / nil / UnsetValue(v4+), optionally NamedValue(v3+)) or a batch (type, 0..3 entries with 0..4 values); options drawn: consistency (on the statement, ClusterConfig.Consistency or Session.SetConsistency), page size (set / default / 0), paging state, serial consistency (statement or ClusterConfig.SerialConsistency), timestamp (default now / explicit / disabled, ClusterConfig.DefaultTimestamp on or off), ClusterConfig.CQLVersion (STARTUP), tracing, custom payload (v4+), NoSkipMetadata; in a quarter of the cases the same Query / Batch object is executed twice; every frame the node received is decoded by lib/cqlspec and compared with what was asked; non-trivial = >= 2 options or a null/unset/named value; distinct by the case",
 		Draw: func(t *rapid.T) interface{} {
 			c := &vxC03SessCase{Proto: rapid.IntRange(1, 5).Draw(t, "proto"), Snappy: rapid.Bool().Draw(t, "snappy"), Keyspace: rapid.Bool().Draw(t, "ks"),
 				Kind: rapid.SampledFrom([]string{"query", "prepared", "prepared", "batch"}).Draw(t, "kind"),
@@ -827,6 +828,7 @@ func TestVxC03Session(t *testing.T) {
 			c.CfgSerial = rapid.SampledFrom([]int{0, 0, 8, 9}).Draw(t, "cfg_serial")
 			c.CfgCQL = rapid.SampledFrom([]string{"", "", "3.4.4", "3.0.0", "4.0.0-beta"}).Draw(t, "cfg_cql")
 			c.ConsVia = rapid.SampledFrom([]int{0, 0, 1, 2}).Draw(t, "cons_via")
+			c.Twice = rapid.IntRange(0, 3).Draw(t, "twice") == 0
 			if c.Kind == "batch" && c.Proto < 2 {
 				c.Proto = 2
 			}
@@ -1001,6 +1003,9 @@ func TestVxC03Session(t *testing.T) {
 					q = q.NoSkipMetadata()
 				}
 				execErr = q.Exec()
+				if c.Twice && execErr == nil {
+					execErr = q.Exec()
+				}
 				if c.Kind == "prepared" {
 					exp.IDHex = ids[stmt]
 				}
@@ -1044,6 +1049,9 @@ func TestVxC03Session(t *testing.T) {
 					b.CustomPayload = pay
 				}
 				execErr = s.ExecuteBatch(b)
+				if c.Twice && execErr == nil {
+					execErr = s.ExecuteBatch(b)
+				}
 				for _, e := range ents {
 					exp.Entries[e.n].IDHex = ids[e.stmt]
 				}
@@ -1062,7 +1070,7 @@ func TestVxC03Session(t *testing.T) {
 			if opt >= 2 || c.Named {
 				k.NonTrivial()
 			}
-			var got *cqlspec.Request
+			var gots []*cqlspec.Request
 			maxStream := 127
 			if c.Proto >= 3 {
 				maxStream = 32767
@@ -1087,21 +1095,25 @@ func TestVxC03Session(t *testing.T) {
 					}
 				}
 				if l.Req.Kind == wantKind && !(wantKind == "QUERY" && l.Req.Statement != stmtQ) {
-					if got != nil {
-						return fmt.Errorf("the %s request was sent more than once", wantKind)
-					}
-					got = l.Req
+					gots = append(gots, l.Req)
 				}
 			}
-			if got == nil {
-				return fmt.Errorf("no %s request reached the node", wantKind)
+			wantN := 1
+			if c.Twice {
+				wantN = 2
+				k.Class("executed twice")
 			}
-			exp.Stream = got.Header.Stream
-			if c.Trace && (len(tr.ids) != 1 || hex.EncodeToString(tr.ids[0]) != "000102030405060708090a0b0c0d0e0f") {
+			if len(gots) != wantN {
+				return fmt.Errorf("%d %s requests reached the node, the statement was executed %d time(s)", len(gots), wantKind, wantN)
+			}
+			if c.Trace && (len(tr.ids) != wantN || hex.EncodeToString(tr.ids[0]) != "000102030405060708090a0b0c0d0e0f") {
 				return fmt.Errorf("tracer got %x", tr.ids)
 			}
-			if err := vxCompareC03(exp, got, t0, t1); err != nil {
-				return fmt.Errorf("%s v%d: the request on the wire differs from what was asked: %v", c.Kind, c.Proto, err)
+			for i, got := range gots {
+				exp.Stream = got.Header.Stream
+				if err := vxCompareC03(exp, got, t0, t1); err != nil {
+					return fmt.Errorf("%s v%d, execution %d of %d: the request on the wire differs from what was asked: %v", c.Kind, c.Proto, i+1, len(gots), err)
+				}
 			}
 			return nil
 		},
